@@ -1512,9 +1512,41 @@ def _logical(kind, f):
     return g
 
 
+RAW_HOWS = ["string", "chunks", "verify", "sha", "rebind_string", "rebind_chunks"]
+
+
+def _split_chunks(raw: bytes):
+    """deterministic chunking of raw content (both live objects of a sequence must see the same call)"""
+    if len(raw) < 2:
+        return [raw]
+    a, b = len(raw) // 3, (2 * len(raw)) // 3
+    return [c for c in (raw[:a], raw[a:b], raw[b:]) if c or True]
+
+
+def _raw_replace(kind, obj, raw: bytes, how: str):
+    """Replace the whole content through one of the RAW paths of the public API.  Returns the live object (a new
+    one for the from_raw_* paths)."""
+    import dulwich.objects as O
+    if how == "string":
+        obj.set_raw_string(raw)
+    elif how == "chunks":
+        obj.set_raw_chunks(_split_chunks(raw))
+    elif how == "verify":          # checked against the contents, then cached
+        obj.set_raw_string(raw, verify_sha=sha_hex("sha1", kind, raw))
+    elif how == "sha":             # trusted (and correct) id supplied by the caller, cached unchecked
+        obj.set_raw_string(raw, sha_hex("sha1", kind, raw))
+    elif how == "rebind_string":   # from_raw_string-then-replace: the sequence continues on the new object
+        obj = O.ShaFile.from_raw_string(TYPE_NUM[kind], raw)
+    elif how == "rebind_chunks":
+        obj = O.ShaFile.from_raw_chunks(TYPE_NUM[kind], _split_chunks(raw))
+    else:
+        raise AssertionError(how)
+    return obj
+
+
 def _apply_op(kind, obj, f, op, ref):
-    """Apply one op to the live object and to the field record.  Returns (f, step record, mutation label,
-    raw content if the op was set_raw_string)."""
+    """Apply one op to the live object and to the field record.  Returns (obj, f, step record, mutation label,
+    raw content if the op replaced the content through a raw path)."""
     import dulwich.objects as O
     what = op[0]
     if what == "set":
@@ -1528,12 +1560,16 @@ def _apply_op(kind, obj, f, op, ref):
         else:
             setattr(obj, attr, v)
             f[attr] = v
-        return f, ("S", type(obj).__name__, attr, dict(f)), "set:" + attr, None
+        return obj, f, ("S", type(obj).__name__, attr, dict(f)), "set:" + attr, None
     if what == "setraw":
-        f = dict(op[1])
-        raw = ref(f) if kind in ("commit", "tag") else ref_tree([(n, m, h) for n, (m, h) in f.items()])
-        obj.set_raw_string(raw)
-        return f, ("W", raw), "setraw", raw
+        how = op[2] if len(op) > 2 else "string"
+        if kind == "blob":
+            f = raw = bytes(op[1])
+        else:
+            f = dict(op[1])
+            raw = ref(f) if kind in ("commit", "tag") else ref_tree([(n, m, h) for n, (m, h) in f.items()])
+        obj = _raw_replace(kind, obj, raw, how)
+        return obj, f, ("W", raw), "setraw:" + how, raw
     if what in ("add", "setitem"):
         _, n, m, h = op
         if what == "add":
@@ -1541,22 +1577,64 @@ def _apply_op(kind, obj, f, op, ref):
         else:
             obj[n] = (m, h)
         f[n] = (m, h)
-        return f, ("S", "Tree", "add" if what == "add" else "__setitem__", dict(f)), what, None
+        return obj, f, ("S", "Tree", "add" if what == "add" else "__setitem__", dict(f)), what, None
     if what == "del":
         del obj[op[1]]
         del f[op[1]]
-        return f, ("S", "Tree", "__delitem__", dict(f)), "del", None
+        return obj, f, ("S", "Tree", "__delitem__", dict(f)), "del", None
     if what == "data":
         obj.data = op[1]
-        return op[1], ("S", "Blob", "data", op[1]), "data", None
+        return obj, op[1], ("S", "Blob", "data", op[1]), "data", None
     if what == "chunked":
         obj.chunked = list(op[1])
-        return b"".join(op[1]), ("S", "Blob", "chunked", b"".join(op[1])), "chunked", None
+        return obj, b"".join(op[1]), ("S", "Blob", "chunked", b"".join(op[1])), "chunked", None
     if what == "id":
-        return f, ("I", _id_or_none(obj)), None, None
+        return obj, f, ("I", _id_or_none(obj)), None, None
     if what == "raw":
-        return f, ("R", _raw_or_none(obj)), None, None
+        return obj, f, ("R", _raw_or_none(obj)), None, None
     raise AssertionError(op)
+
+
+# query disciplines of the oracle run: which ids are requested before / after every op
+DISCIPLINES = ["id", "sha1-explicit", "sha256-before-after", "sha256-twice-then-sha1", "alternate", "sha-objects"]
+
+
+def _ask(obj, which):
+    """One id request: '.id', explicit get_id(fmt), or sha(fmt).hexdigest()."""
+    from dulwich.object_format import SHA1, SHA256
+    try:
+        if which == "id":
+            return "sha1", obj.id
+        if which == "1":
+            return "sha1", obj.get_id(SHA1)
+        if which == "256":
+            return "sha256", obj.get_id(SHA256)
+        if which == "s1":
+            return "sha1", obj.sha(SHA1).hexdigest().encode()
+        if which == "s256":
+            return "sha256", obj.sha(SHA256).hexdigest().encode()
+        if which == "s":
+            return "sha1", obj.sha().hexdigest().encode()
+    except Exception as e:  # noqa: BLE001
+        return which, _Raised(e)
+    raise AssertionError(which)
+
+
+def _queries(discipline: str, i: int):
+    """(before, after) request lists for step i."""
+    if discipline == "id":
+        return [], ["id"]
+    if discipline == "sha1-explicit":
+        return ["1"], ["1"]
+    if discipline == "sha256-before-after":
+        return ["256"], ["256"]
+    if discipline == "sha256-twice-then-sha1":
+        return [], ["256", "256", "1"]
+    if discipline == "alternate":
+        return [], (["256"] if i % 2 == 0 else ["1"])
+    if discipline == "sha-objects":
+        return ["s256"], ["s256", "s256", "s"]
+    raise AssertionError(discipline)
 
 
 def _sequence_gen(ctx, kind, seq, stream="edits"):
@@ -1595,38 +1673,64 @@ def _sequence_gen(ctx, kind, seq, stream="edits"):
         b.data = f
         return b
 
-    # ---- run 2 (oracle after every step)
+    # ---- run 2 (oracle after every step; ids requested per the sequence's query discipline, BEFORE as_raw_string)
     obj, f = new_obj()
     last_mut, setraw_content = "init", None
+    discipline = seq.get("discipline") or "id"
+    expect_raw = None      # what as_raw_string() returned after the previous step
     for i, op in enumerate(seq["ops"]):
+        case = {"kind": kind, "init": seq.get("init_repr"), "discipline": discipline,
+                "ops": [repr(o) for o in seq["ops"][: i + 1]],
+                "replay": {"op": "seq", "kind": kind, "seq": _seq_to_json(seq, i + 1)}}
+        before, after = _queries(discipline, i)
+        bad = None
+        for q in before:
+            algo, got = _ask(obj, q)
+            if expect_raw is not None and got != sha_hex(algo, kind, expect_raw):
+                bad = f"before op {i} ({op[0]}): {q} request gives {got!r}, expected {sha_hex(algo, kind, expect_raw)!r}"
         try:
-            f, _, mut, rawc = _apply_op(kind, obj, f, op, ref)
+            obj, f, _, mut, rawc = _apply_op(kind, obj, f, op, ref)
         except Exception as e:  # noqa: BLE001
-            ctx.oracle_fail(stream, {"kind": kind, "init": seq.get("init_repr"), "ops": [repr(o) for o in seq["ops"][: i + 1]],
-                                     "replay": {"op": "seq", "kind": kind, "seq": _seq_to_json(seq, i + 1)}},
-                            f"operation with valid values raised {type(e).__name__}: {e}", None)
+            ctx.oracle_fail(stream, case, f"operation with valid values raised {type(e).__name__}: {e}", None)
             return
         if mut is not None:
             last_mut, setraw_content = mut, rawc
-        got_id, got_raw = _id_or_none(obj), _raw_or_none(obj)
-        case = {"kind": kind, "init": seq.get("init_repr"), "ops": [repr(o) for o in seq["ops"][: i + 1]],
-                "replay": {"op": "seq", "kind": kind, "seq": _seq_to_json(seq, i + 1)}}
         cls_ = None
         if kind == "blob" and last_mut == "chunked":
             cls_ = "blob-chunked-setter"
         elif isinstance(f, dict) and _sticky_neg(kind, f) and last_mut.endswith("timezone"):
             cls_ = "neg-utc-flag-kept-for-nonzero-timezone"
-        if got_raw is None or got_id is None:
-            ctx.oracle_fail(stream, case, f"object with valid field values cannot be serialised after {last_mut}", None)
+        if bad:
+            ctx.oracle_fail(stream, case, bad, None)
             break
-        if got_id != sha_hex("sha1", kind, got_raw).decode():
-            ctx.oracle_fail(stream, case, f"after {last_mut}: id {got_id} is not the hash of header+as_raw_string()", cls_)
+        asked = [_ask(obj, q) + (q,) for q in after]          # ids first: as_raw_string() must not be needed to refresh them
+        got_raw = _raw_or_none(obj)
+        if got_raw is None or any(isinstance(g, _Raised) for _, g, _ in asked):
+            ctx.oracle_fail(stream, case, f"object with valid field values cannot be serialised / named after {last_mut}", None)
             break
-        want_raw = setraw_content if setraw_content is not None else fresh(f).as_raw_string()
+        stale = [(q, g, sha_hex(a, kind, got_raw)) for a, g, q in asked if g != sha_hex(a, kind, got_raw)]
+        if stale:
+            q, g, w = stale[0]
+            ctx.oracle_fail(stream, case, f"after {last_mut}: {q} request gives {g!r}, which is not the hash of "
+                                          f"header+as_raw_string() ({w!r})", cls_)
+            break
+        try:
+            fr = fresh(f) if setraw_content is None else O.ShaFile.from_raw_string(TYPE_NUM[kind], setraw_content)
+            want_raw = fr.as_raw_string()
+            fresh_ids = {"sha1": fr.id, "sha256": fr.get_id(__import__("dulwich.object_format", fromlist=["SHA256"]).SHA256)}
+        except Exception as e:  # noqa: BLE001
+            ctx.oracle_fail(stream, case, f"a fresh object with the same values cannot be built: {type(e).__name__}: {e}", None)
+            break
         if got_raw != want_raw:
             ctx.oracle_fail(stream, case, f"after {last_mut}: bytes differ from a freshly built object with the same values: "
                                           f"{got_raw[:120]!r} vs {want_raw[:120]!r}", cls_)
             break
+        diff = [(q, g) for a, g, q in asked if g != fresh_ids[a]]
+        if diff:
+            ctx.oracle_fail(stream, case, f"after {last_mut}: {diff[0][0]} request gives {diff[0][1]!r}, a freshly built object "
+                                          f"with the same values is named differently", cls_)
+            break
+        expect_raw = got_raw
     # ---- run 1 (only the generated reads) against the model's machine
     obj, f = new_obj()
     steps = []
@@ -1634,7 +1738,7 @@ def _sequence_gen(ctx, kind, seq, stream="edits"):
         steps.append(("S", type(obj).__name__, "message", dict(f)))     # the state after the initial setters
     for op in seq["ops"]:
         try:
-            f, st, _, _ = _apply_op(kind, obj, f, op, ref)
+            obj, f, st, _, _ = _apply_op(kind, obj, f, op, ref)
         except Exception:  # noqa: BLE001  (already reported by the oracle run above)
             return
         steps.append(st)
@@ -1751,7 +1855,7 @@ def _uj(v):
 
 
 def _seq_to_json(seq, upto=None):
-    return {"init": _j(seq["init"]), "ops": [_j(o) for o in seq["ops"][:upto]]}
+    return {"init": _j(seq["init"]), "ops": [_j(o) for o in seq["ops"][:upto]], "discipline": seq.get("discipline")}
 
 
 def _seq_from_json(kind, d):
@@ -1762,7 +1866,7 @@ def _seq_from_json(kind, d):
         if o[0] in ("add", "setitem"):
             o = [o[0], o[1], o[2], o[3]]
         if o[0] == "setraw" and kind == "tree":
-            o = ["setraw", {k: tuple(v) for k, v in o[1].items()}]
+            o = ["setraw", {k: tuple(v) for k, v in o[1].items()}] + list(o[2:])
         if o[0] == "set" and o[1] == "object":
             o = ["set", "object", tuple(o[2])]
         ops.append(o)
@@ -1771,81 +1875,183 @@ def _seq_from_json(kind, d):
     for o in ops:
         if o[0] == "setraw" and isinstance(o[1], dict) and "extra" in o[1]:
             o[1]["extra"] = [tuple(x) for x in o[1]["extra"]]
-    return {"init": init, "init_repr": repr(init)[:200], "ops": ops}
+    return {"init": init, "init_repr": repr(init)[:200], "ops": ops, "discipline": d.get("discipline")}
 
 
 def gen_sequence(rng, kind):
+    """Random op sequence on one live object.  Besides the public setters the alphabet has, for every class, the
+    RAW replacement paths (set_raw_string, set_raw_chunks, verify_sha=, trusted sha=, from_raw_string/from_raw_chunks
+    then continue on the new object; for blobs also `data =`), and each sequence fixes a query discipline for ids."""
     ops = []
     n = rng.randint(2, 12)
+    discipline = rng.choice(DISCIPLINES)
+    how = lambda: rng.choice(RAW_HOWS)          # noqa: E731
     if kind == "blob":
         for _ in range(n):
             k = rng.random()
-            if k < 0.3:
+            if k < 0.2:
                 ops.append(["data", rng.randbytes(rng.choice([0, 1, 5, 40]))])
-            elif k < 0.55:
+            elif k < 0.4:
                 data = rng.randbytes(rng.choice([0, 1, 5, 40]))
                 cuts = sorted(rng.randrange(len(data) + 1) for _ in range(rng.randint(0, 3)))
                 chunks = [data[a:b] for a, b in zip([0] + cuts, cuts + [len(data)])]
                 ops.append(["chunked", chunks])
-            elif k < 0.85:
+            elif k < 0.65:
+                ops.append(["setraw", rng.randbytes(rng.choice([0, 1, 5, 40])), how()])
+            elif k < 0.88:
                 ops.append(["id"])
             else:
                 ops.append(["raw"])
-        return {"init": None, "init_repr": "Blob()", "ops": ops}
+        return {"init": None, "init_repr": "Blob()", "ops": ops, "discipline": discipline}
     if kind == "tree":
         names = []
         for _ in range(n):
             k = rng.random()
-            if k < 0.4 or not names:
+            if k < 0.35 or not names:
                 nm = gen_name(rng)
                 if b"/" in nm or b"\0" in nm or not nm:
                     nm = b"n%d" % rng.randrange(5)
                 ops.append([rng.choice(["add", "setitem"]), nm, rng.choice(MODES), gen_hex(rng)])
                 if nm not in names:
                     names.append(nm)
-            elif k < 0.5:
+            elif k < 0.45:
                 nm = rng.choice(names)
                 names.remove(nm)
                 ops.append(["del", nm])
-            elif k < 0.58:
+            elif k < 0.65:
                 es = gen_tree_entries(rng, "sha1", git_clean=True)
-                ops.append(["setraw", {a: (b, c) for a, b, c in es}])
+                ops.append(["setraw", {a: (b, c) for a, b, c in es}, how()])
                 names = [a for a, _, _ in es]
-            elif k < 0.88:
+            elif k < 0.9:
                 ops.append(["id"])
             else:
                 ops.append(["raw"])
-        return {"init": None, "init_repr": "Tree()", "ops": ops}
+        return {"init": None, "init_repr": "Tree()", "ops": ops, "discipline": discipline}
     gen = gen_commit_fields if kind == "commit" else gen_tag_fields
     edit = _edit_ops_commit if kind == "commit" else _edit_ops_tag
-    def lf(g):
-        return g       # mergetag texts without a final LF are fine since b8dbd4a (no byte is cut any more)
-    f = lf(gen(rng, "canon"))
-    if kind == "tag" and f["tagger"] is None:
-        f["tagger"], f["tag_time"], f["tag_timezone"], f["tag_neg"] = b"T <t@t>", 1, 0, False
+
+    def full(g):
+        if kind == "tag" and g["tagger"] is None:
+            g["tagger"], g["tag_time"], g["tag_timezone"], g["tag_neg"] = b"T <t@t>", 1, 0, False
+        return g
+    f = full(gen(rng, "canon"))
     cur = dict(f)
     if rng.random() < 0.4:
-        ops.append(["setraw", dict(f)])        # start from parsed canonical bytes instead of setters only
+        ops.append(["setraw", dict(f), how()])        # start from parsed canonical bytes instead of setters only
     for _ in range(n):
         k = rng.random()
-        if k < 0.5:
+        if k < 0.45:
             attr, v = edit(rng, cur)
             ops.append(["set", attr, v])
             if attr == "object":
                 cur["object_type"], cur["object_sha"] = v
             else:
                 cur[attr] = v
-        elif k < 0.58:
-            g = lf(gen(rng, "canon"))
-            if kind == "tag" and g["tagger"] is None:
-                g["tagger"], g["tag_time"], g["tag_timezone"], g["tag_neg"] = b"T <t@t>", 1, 0, False
-            ops.append(["setraw", g])
+        elif k < 0.62:
+            g = full(gen(rng, "canon"))
+            ops.append(["setraw", g, how()])
             cur = dict(g)
-        elif k < 0.88:
+        elif k < 0.9:
             ops.append(["id"])
         else:
             ops.append(["raw"])
-    return {"init": f, "init_repr": {k: repr(v) for k, v in f.items()}, "ops": ops}
+    return {"init": f, "init_repr": {k: repr(v) for k, v in f.items()}, "ops": ops, "discipline": discipline}
+
+
+def _stream_verify(ctx):
+    """The paths of the public API that take an expected id (`verify_sha=` on set_raw_string / set_raw_chunks /
+    from_raw_string, checked; `sha=`, trusted, checked later by check()): the right id is accepted and is the id
+    afterwards, a wrong one is rejected — both algorithms, every class, also on a live object whose previous content
+    had been named before (so that a stale cache would make the verification pass or fail wrongly)."""
+    import dulwich.objects as O
+    from dulwich.errors import ChecksumMismatch
+    from dulwich.object_format import SHA1, SHA256
+    rng = ctx.rng
+    fmts = {"sha1": SHA1, "sha256": SHA256}
+
+    def content(kind, algo):
+        if kind == "blob":
+            return rng.randbytes(rng.choice([0, 1, 20]))
+        if kind == "tree":
+            return ref_tree(gen_tree_entries(rng, algo, git_clean=True))
+        if kind == "commit":
+            return ref_commit(gen_commit_fields(rng, "git", algo))
+        return ref_tag(gen_tag_fields(rng, "git", algo))
+
+    def rejects(fn):
+        try:
+            fn()
+        except ChecksumMismatch:
+            return True
+        except Exception as e:  # noqa: BLE001
+            return _Raised(e)
+        return False
+    for i in range(ctx.budget(120)):
+        kind = ("blob", "tree", "commit", "tag")[i % 4]
+        algo = ("sha1", "sha256")[(i // 4) % 2]
+        fmt = fmts[algo]
+        old, new = content(kind, algo), content(kind, algo)
+        right, wrong_old = sha_hex(algo, kind, new), sha_hex(algo, kind, old)
+        wrong = wrong_old if old != new else (b"0" * len(right))
+        tn = TYPE_NUM[kind]
+        case = {"kind": kind, "algo": algo, "old": hx(old), "new": hx(new)}
+        ctx.count("verify", (kind, algo, old, new), True, f"{kind}:{algo}")
+
+        def live():
+            """a live object holding `old`, already named in this format (twice) — then the content is replaced"""
+            o = O.ShaFile.from_raw_string(tn, old, object_format=fmt)
+            o.get_id(fmt), o.get_id(fmt), o.id
+            return o
+        problems = []
+        # from_raw_string(verify_sha=)
+        o = _try(O.ShaFile.from_raw_string, tn, new, object_format=fmt, verify_sha=right)
+        if isinstance(o, _Raised) or o.get_id(fmt) != right or o.as_raw_string() != new:
+            problems.append(f"from_raw_string(verify_sha=right) -> {o!r}")
+        r = rejects(lambda: O.ShaFile.from_raw_string(tn, new, object_format=fmt, verify_sha=wrong))
+        if r is not True:
+            problems.append(f"from_raw_string(verify_sha=wrong) not rejected: {r!r}")
+        # set_raw_chunks / set_raw_string(verify_sha=) on a live, already named object
+        o = live()
+        r = _try(o.set_raw_chunks, _split_chunks(new), object_format=fmt, verify_sha=right)
+        if isinstance(r, _Raised) or o.get_id(fmt) != right or o.get_id(fmt) != right or o.as_raw_string() != new:
+            problems.append(f"live.set_raw_chunks(verify_sha=right): {r!r}, id {o.get_id(fmt)!r}")
+        o = live()
+        r = rejects(lambda: o.set_raw_chunks(_split_chunks(new), object_format=fmt, verify_sha=wrong))
+        if r is not True:
+            problems.append(f"live.set_raw_chunks(verify_sha=<id of the previous content>) not rejected: {r!r}")
+        o = live()
+        r = _try(o.set_raw_string, new, verify_sha=right)      # object_format of the object (set by from_raw_string)
+        if isinstance(r, _Raised) or o.get_id(fmt) != right:
+            problems.append(f"live.set_raw_string(verify_sha=right): {r!r}, id {o.get_id(fmt)!r}")
+        # trusted sha= (SHA-1 naming): right one is the id and passes check(); a wrong one is caught by check()
+        if algo == "sha1":
+            o = live()
+            o.set_raw_string(new, right)
+            if o.id != right or isinstance(_try(o.check), _Raised) and kind == "blob":
+                problems.append("set_raw_string(sha=right): id differs or check() fails")
+            o = live()
+            o.set_raw_string(new, wrong)
+            r = rejects(o.check)
+            if r is False:
+                problems.append("set_raw_string(sha=wrong) passes check()")
+            # sha= and verify_sha= together are refused
+            r = _try(live().set_raw_string, new, right, verify_sha=right)
+            if not (isinstance(r, _Raised) and isinstance(r.e, ValueError)):
+                problems.append("sha= together with verify_sha= is not refused")
+        # after a plain raw replacement the explicit-format id is the new one, asked twice
+        for how in RAW_HOWS:
+            o = live()
+            o2 = _try(_raw_replace, kind, o, new, how) if algo == "sha1" or how in ("string", "chunks") else None
+            if o2 is None:
+                continue
+            if isinstance(o2, _Raised):
+                problems.append(f"raw path {how} raised: {o2!r}")
+                continue
+            ids = [_try(o2.get_id, fmt), _try(o2.get_id, fmt)]
+            if ids != [right, right]:
+                problems.append(f"after raw path {how}: get_id({algo}) twice = {ids!r}, expected {right!r}")
+        for pr in problems:
+            ctx.oracle_fail("verify", case, pr, None)
 
 
 def _stream_edits(ctx):
@@ -1856,6 +2062,13 @@ def _stream_edits(ctx):
         kind = ("commit", "tag", "tree", "blob")[i % 4]
         seq = gen_sequence(rng, kind)
         ctx.count("edits", (kind, repr(seq["ops"])), True, f"{kind}:len{min(len(seq['ops']) // 4 * 4, 12)}")
+        hd = ctx.hist.setdefault("edits.discipline", {})
+        hd[seq["discipline"]] = hd.get(seq["discipline"], 0) + 1
+        hr = ctx.hist.setdefault("edits.raw-paths", {})
+        for o in seq["ops"]:
+            if o[0] == "setraw":
+                key = f"{kind}:{o[2]}"
+                hr[key] = hr.get(key, 0) + 1
         items.append((kind, seq))
         if i < 2:
             ctx.sample({"stream": "edits", "kind": kind, "ops": [repr(o)[:60] for o in seq["ops"]][:8]})
@@ -2257,6 +2470,7 @@ def run(ctx: core.Ctx):
         _stream_objects(ctx, "commit")
         _stream_blob(ctx)
         _stream_edits(ctx)
+        _stream_verify(ctx)
         _stream_git(ctx)
     finally:
         V.close()
@@ -2270,6 +2484,7 @@ def search(ctx: core.Ctx):
     V = Variants(ctx)
     try:
         _stream_edits(ctx)
+        _stream_verify(ctx)
         if ctx.oracle_failures:
             return
         _stream_tz(ctx)
